@@ -195,6 +195,22 @@ def appendSelf (r : RArr) : Option RArr :=
       | some cs' => some { r1 with cells := some cs', n := r.n + r.n }
       | none => none
 
+/-- `append(&a[i], n)` (`append(const T* values, usize size)` with `values` pointing into the array, `i + n ≤ size`):
+    `values = reserve(oldSize + size, values)` = `_begin.item + index` in the (possibly new) block, then the copy loop
+    `for(end = item + size; item < end; ++item, ++values) new(item) T(*values);` reads the cells `i … i+n-1` of that block -/
+def appendSub (r : RArr) (i n : Nat) : Option RArr :=
+  if i + n ≤ r.n then
+    match reserve r (r.n + n) with
+    | none => none
+    | some r1 =>
+      match r1.cells with
+      | none => if n = 0 then some r1 else none
+      | some cs =>
+        match selfCopyLoop cs r.n i n with
+        | some cs' => some { r1 with cells := some cs', n := r.n + n }
+        | none => none
+  else none
+
 /-- `append(a[i])`: `src = reserve(size + 1, &value)` = `_begin.item + index` in the new block -/
 def appendRef (r : RArr) (i : Nat) : Option RArr :=
   if i < r.n then
@@ -264,7 +280,7 @@ def isArrayOp : Op → Bool
   | .anew _ | .anewcap _ _ | .acopy _ | .aassign _ | .areserve _ _ | .aresize _ _ _ | .aappend _ _ | .aappenda _
   | .aappendn _ _ | .aremovei _ _ | .aremove _ _ | .aremoveFront _ | .aremoveBack _ | .aclear _ | .aswap _
   | .afind _ _ | .aget _ _ | .afront _ | .aback _ | .aeq _ _
-  | .aappendself _ | .aappendref _ _ | .aresizeref _ _ _ | .aassignself _ => true
+  | .aappendself _ | .aappendref _ _ | .aresizeref _ _ _ | .aassignself _ | .aappendsub _ _ _ => true
   | _ => false
 
 /-- one Array operation of the machine at cell level (`none` = precondition violated or fault);
@@ -297,6 +313,7 @@ def rstep (p : RPair) (op : Op) : Option RPair :=
   | .aappendref v i => un v (fun r => appendRef r i)
   | .aresizeref v n i => un v (fun r => resizeRef r n i)
   | .aassignself v => if v < 2 then some p else none
+  | .aappendsub v i n => un v (fun r => appendSub r i n)
   | _ => some p
 
 def rrun (p : RPair) : List Op → RPair
